@@ -1369,10 +1369,16 @@ def add_trial_strategy():
       trials.append(pairs)
     # the trial object's own status must not matter for the membership check
     return {'space': spec, 'trials': trials,
+            # add through a second handle obtained with from_study_config and
+            # a DIFFERENT (wider) config: the stored study's space decides
+            'second_handle': draw(st.sampled_from([False, False, True])),
             'status': draw(st.lists(st.sampled_from(
                 ['active', 'requested', 'completed']), min_size=4,
                                     max_size=4))}
   return case()
+
+
+_CASES = [0]
 
 
 def check_add_trial(case):
@@ -1391,9 +1397,37 @@ def check_add_trial(case):
       'm', goal=vz.ObjectiveMetricGoal.MAXIMIZE))
   s = svc.make_servicer('ram')
   try:
-    st_ = svc.create_study(s, 'o', 's', config=sc)
-    client = vizier_client.VizierClient(st_.name, 'w', s)
-    study = clients.Study(client)
+    if case.get('second_handle') and not conditional:
+      # the implicit in-process service, as a user gets it
+      from vizier._src.service import constants
+      import copy as _copy
+      env = clients.environment_variables
+      env.server_endpoint = constants.NO_ENDPOINT
+      env.servicer_kwargs = {'database_url': None}
+      vizier_client._create_local_vizier_servicer.cache_clear()  # pylint: disable=protected-access
+      _CASES[0] += 1
+      owner = 'c16-%d' % _CASES[0]
+      first = clients.Study.from_study_config(sc, owner=owner, study_id='s')
+      wide = _copy.deepcopy(spec)
+      for p in wide['params']:
+        if p['kind'] in ('DOUBLE', 'INTEGER') and p.get('scale') not in (
+            'LOG', 'REVERSE_LOG'):
+          p['lo'], p['hi'] = p['lo'] - 1000000, p['hi'] + 1000000
+          p.pop('default', None)
+        if p['kind'] == 'CATEGORICAL':
+          p['values'] = sorted(set(p['values']) | {'nope', 'zzz', 'other'})
+      sc2 = svz.StudyConfig(algorithm='RANDOM_SEARCH')
+      if _build(out, wide, sc2.search_space) is None:
+        return out
+      sc2.metric_information.append(vz.MetricInformation(
+          'm', goal=vz.ObjectiveMetricGoal.MAXIMIZE))
+      study = clients.Study.from_study_config(sc2, owner=owner, study_id='s')
+      out.cls('second_handle_with_wider_config')
+      del first
+    else:
+      st_ = svc.create_study(s, 'o', 's', config=sc)
+      client = vizier_client.VizierClient(st_.name, 'w', s)
+      study = clients.Study(client)
     stored = 0
     n_mem = n_non = 0
     for ti, pairs in enumerate(case['trials']):
